@@ -17,7 +17,8 @@ THEOREMS = ['Otel.C02.Fanout.' + t for t in (
     'batch_shutdown_drains_through_provider',
     'meter_shutdown_once', 'meter_late_shutdown_returns_true', 'meter_flush_every_reader', 'meter_flush_sound',
     'reader_shutdown_not_latched_witness', 'reader_collect_after_shutdown_not_refused',
-    'later_children_get_zero_after_deadline')]
+    'later_children_get_zero_after_deadline',
+    'Latch.inv_run', 'Latch.latch_forwards_once', 'Latch.loser_returns_before_forwarding_witness')]
 _SRCS = sdk_sources('common', 'resource', 'version', 'trace', 'logs', 'metrics')
 H = Harness('s_fanout', ['harness/s_fanout.cc'], sdk_srcs=_SRCS, includes=SDK_INCLUDES)
 HARNESSES = [H]
